@@ -23,7 +23,7 @@ CHECKS = {
    text="For every explored input and configuration where both parses produce output, the ordered metadata entries of parse_metadata() equal those of parse(), and the same holds for parse_metadata_with_options() vs parse_with_options() under a pure metadata validator that excludes some keys, skips the standard checks of others and warns about others.",
    note="Both sides are the implementation under test; the relation between them is the oracle.", ref="DESIGN.md section 3 (C14)"),
  "C12": dict(tech="property-based testing (proptest) + exhaustive grid enumeration against an exact-rational oracle",
-   text="Every value k/480 (quick) or k/3840 (thorough) in (0,4]/(0,8] is enumerated against every max_den 0..=64, six accuracies and five whole-part limits, plus random values (grid, uniform, near-integers, near 2^32, arbitrary f64); each result is checked against the statement's clauses with exact rational arithmetic for the printed form. The callers (fit, convert to a system or unit, try_fraction on numbers and ranges in every bundled unit) are checked against the limits units.toml gives for the unit of the result, computed from the files by the harness, for units.toml alone and for units.toml plus a second fractions layer with explicit limits at every level (including max_denominator 1 and 0 for single units), and plus a strict layer whose general levels sit under bare toggles; the expected settings are read from the TOML text by the harness. A continuous domain cannot be exhausted, so this is bounded search, not proof.",
+   text="Every value k/480 (quick) or k/3840 (thorough) in (0,4]/(0,8] is enumerated against every max_den 0..=64, six accuracies and five whole-part limits, plus random values (grid, uniform, near-integers, near 2^32, arbitrary f64); each result is checked against the statement's clauses with exact rational arithmetic for the printed form. The callers (fit, convert to a system or unit, try_fraction on numbers and ranges in every bundled unit) are checked against the limits units.toml gives for the unit of the result, computed from the files by the harness, for units.toml alone and for units.toml plus a second fractions layer with explicit limits at every level (including max_denominator 1 and 0 for single units), plus a strict layer whose general levels sit under bare toggles, and a standalone units file whose time and mass units have no system; the expected settings are read from the TOML text by the harness. A continuous domain cannot be exhausted, so this is bounded search, not proof.",
    note="Trusted: f64 arithmetic of the harness; documented preconditions of new_approx (accuracy in [0,1], max_den <= 64).", ref="DESIGN.md section 4 (C12)"),
 }
 def main():
